@@ -487,6 +487,7 @@ func hasPort(s string) bool {
 // It shuttles data from the output channel to write(), and is killed
 // when the context is cancelled.
 func (conn *Conn) send(ctx context.Context) {
+	sock := conn.sock
 	for {
 		select {
 		case line := <-conn.out:
@@ -494,7 +495,7 @@ func (conn *Conn) send(ctx context.Context) {
 				logging.Error("irc.send(): %s", err.Error())
 				// We can't defer this, because Close() waits for it.
 				conn.wg.Done()
-				conn.Close()
+				conn.closeSock(sock)
 				return
 			}
 		case <-ctx.Done():
@@ -509,6 +510,7 @@ func (conn *Conn) send(ctx context.Context) {
 // It receives "\r\n" terminated lines from the server, parses them into
 // Lines, and sends them to the input channel.
 func (conn *Conn) recv() {
+	sock := conn.sock
 	for {
 		s, err := conn.io.ReadString('\n')
 		if err != nil {
@@ -517,7 +519,7 @@ func (conn *Conn) recv() {
 			}
 			// We can't defer this, because Close() waits for it.
 			conn.wg.Done()
-			conn.Close()
+			conn.closeSock(sock)
 			return
 		}
 		s = strings.Trim(s, "\r\n")
@@ -553,6 +555,7 @@ func (conn *Conn) ping(ctx context.Context) {
 // It pulls Lines from the input channel and dispatches them to any
 // handlers that have been registered for that IRC verb.
 func (conn *Conn) runLoop(ctx context.Context) {
+	sock := conn.sock
 	for {
 		select {
 		case line := <-conn.in:
@@ -563,7 +566,7 @@ func (conn *Conn) runLoop(ctx context.Context) {
 
 			// We can't defer this, because Close() waits for it.
 			conn.wg.Done()
-			conn.Close()
+			conn.closeSock(sock)
 			return
 		}
 	}
@@ -617,10 +620,19 @@ func (conn *Conn) rateLimit(chars int) time.Duration {
 // the sending or receiving goroutines encounter an error.
 // It may also be used to forcibly shut down the connection to the server.
 func (conn *Conn) Close() error {
+	return conn.closeSock(nil)
+}
+
+// closeSock is Close for the connection's own goroutines: they pass the socket
+// they were started for, and nothing happens if that is no longer the current
+// one. Otherwise a goroutine that is late in noticing the end of its connection
+// would tear down a connection established since (e.g. by a reconnect from a
+// DISCONNECTED handler). A nil sock closes whatever connection is current.
+func (conn *Conn) closeSock(sock net.Conn) error {
 	// Guard against double-call of Close() if we get an error in send()
 	// as calling sock.Close() will cause recv() to receive EOF in readstring()
 	conn.mu.Lock()
-	if !conn.connected {
+	if !conn.connected || (sock != nil && sock != conn.sock) {
 		conn.mu.Unlock()
 		return nil
 	}
